@@ -8,7 +8,7 @@
 //              c11hist (random histories, random printable contents, all capacities),
 //              c11eq (equality / inequality / compare over all pairs of contents, L <= 3, S != L too)
 //
-// Executor: fixed_string_rig.hpp (SessionImpl<L>), instantiated in fixed_string_g1..g4.cpp.
+// Executor: fixed_string_rig.hpp (SessionImpl<L>), instantiated in fixed_string_g01..g10.cpp.
 #include "fixed_string_rig.hpp"
 
 using namespace fsv;
@@ -22,10 +22,11 @@ static const size_t NCAPS = sizeof CAPS / sizeof CAPS[0];
 
 static Session* make_session(size_t L)
 {
-   Session* s = make_session_g1(L, ctx);
-   if (!s) s = make_session_g2(L, ctx);
-   if (!s) s = make_session_g3(L, ctx);
-   if (!s) s = make_session_g4(L, ctx);
+   typedef Session* (*Maker)(size_t, Ctx&);
+   static const Maker MAKERS[] = { make_session_g01, make_session_g02, make_session_g03, make_session_g04, make_session_g05,
+                                   make_session_g06, make_session_g07, make_session_g08, make_session_g09, make_session_g10 };
+   Session* s = nullptr;
+   for (Maker m : MAKERS) if (!s) s = m(L, ctx);
    if (!s) { fprintf(stderr, "no instantiation for capacity %zu\n", L); exit(3); }
    return s;
 }
@@ -153,7 +154,7 @@ static void build_ops()
       const std::string n = SEARCH_NAMES[w];
       addKinds(n + "_str_pos", F_SEARCH, SAME, { R_POS }, 0, w);
       addKinds(n + "_str", F_SEARCH_D, SAME, {}, 0, w);
-      add(n + "_cstr_pos_count", "", F_SEARCH_CSTR_CNT, SK_CSTR, w, { R_POS, w == 1 ? R_SCNT : R_SARR }, OF_SRC);
+      add(n + "_cstr_pos_count", "", F_SEARCH_CSTR_CNT, SK_CSTR, w, { R_POS, w == 1 ? R_SCNT : (w == 0 ? R_SARR : R_TARR) }, OF_SRC);
       add(n + "_ch_pos", "", F_SEARCH_CH, SK_NONE, w, { R_POS }, OF_CH);
       add(n + "_ch", "", F_SEARCH_CH_D, SK_NONE, w, {}, OF_CH);
    }
@@ -163,8 +164,8 @@ static void build_ops()
    add("iterate_forward", "", F_ITER_FWD, SK_NONE, 0, {}, 0);
    add("iterate_reverse", "", F_ITER_REV, SK_NONE, 0, {}, 0);
    add("iterator_arithmetic", "", F_ITER_ARITH, SK_NONE, 0, { R_ANY, R_ANY }, 0);
-   static const int FWD_EDGES[] = { 0, 1, 5, 6, 8, 9, 12, 14, 16, 18 };
-   static const int REV_EDGES[] = { 2, 3, 4, 7, 10, 11, 13, 15, 17 };
+   static const int FWD_EDGES[] = { 0, 1, 5, 6, 8, 9, 12, 14, 16, 18, 19, 20 };
+   static const int REV_EDGES[] = { 2, 3, 4, 7, 10, 11, 13, 15, 17, 21, 22 };
    for (int e : FWD_EDGES) add("iterator_edge_forward", std::to_string(e), F_ITER_EDGE, SK_NONE, e, { R_POS }, OF_C10ONLY);
    for (int e : REV_EDGES) add("iterator_edge_reverse", std::to_string(e), F_ITER_EDGE, SK_NONE, e, { R_POS }, OF_C10ONLY);
 }
@@ -199,6 +200,10 @@ static std::vector<size_t> grid10(Role r, size_t len, size_t L, size_t slen, int
    case R_SIT:
       for (size_t x : { size_t(0), size_t(1), slen - 1, slen }) push_unique(v, x);
       break;
+   case R_TARR:
+      // the array is scanned once per character of the string: keep length x extent bounded
+      for (size_t x : { size_t(0), size_t(1), slen - 1, slen, slen + 1, L, L + 1, 4 * L + 7 }) if (x <= std::min<size_t>(8 * L + 64, 4200)) push_unique(v, x);
+      break;
    case R_BIT:
       v = { 0, 1 };
       break;
@@ -226,7 +231,7 @@ static std::vector<size_t> grid11(Role r, size_t len, size_t L, size_t slen)
    case R_REP:
       for (size_t x = 0; x <= L + 2; ++x) v.push_back(x);
       break;
-   case R_SPOS: case R_SIT: case R_SARR:
+   case R_SPOS: case R_SIT: case R_SARR: case R_TARR:
       for (size_t x = 0; x <= slen; ++x) v.push_back(x);
       break;
    case R_SCNT:
@@ -329,6 +334,7 @@ static std::string brief(const std::string& s) { return shortText(s); }
 
 static void run_c10exh(const vh::Args& a)
 {
+   const std::string only = a.gets("only");   // development aid: restrict to operations whose name contains this
    const int level = int(a.getu("gridlevel", 1));
    ExhPlan plan;
    for (size_t i = 0; i < OPS.size(); ++i) plan.ops.push_back(i);
@@ -347,6 +353,7 @@ static void run_c10exh(const vh::Args& a)
       unsigned variant;
       plan.decode(idx, L, variant, ci, oi);
       const OpDef& d = OPS[oi];
+      if (!only.empty() && d.name.find(only) == std::string::npos) { out.stat("filtered"); continue; }
       const std::string& content = plan.contents[L][ci];
       const bool stale = variant != 1;
       const int placement = variant == 2 ? 1 : 0;
@@ -392,6 +399,7 @@ static void run_c10exh(const vh::Args& a)
 
 static void run_c11exh(const vh::Args& a)
 {
+   const std::string only = a.gets("only");
    const int level = int(a.getu("srclevel", 1));
    ExhPlan plan;
    for (size_t i = 0; i < OPS.size(); ++i) if (!(OPS[i].flags & OF_C10ONLY)) plan.ops.push_back(i);
@@ -410,6 +418,7 @@ static void run_c11exh(const vh::Args& a)
       unsigned variant;
       plan.decode(idx, L, variant, ci, oi);
       const OpDef& d = OPS[oi];
+      if (!only.empty() && d.name.find(only) == std::string::npos) { out.stat("filtered"); continue; }
       const std::string& content = plan.contents[L][ci];
       const bool stale = (ci % 3) != 0;
       const int placement = (ci % 2) ? 1 : 0;
@@ -523,8 +532,13 @@ static void run_c11eq(const vh::Args& a)
 static std::string random_text(vh::Rng& r, size_t n, bool printable)
 {
    std::string s(n, ' ');
-   if (printable) for (auto& ch : s) ch = char(33 + r.below(94));
-   else for (auto& ch : s) ch = char('a' + r.below(3));
+   const unsigned base = printable ? 33 : 'a', span = printable ? 94 : 3;
+   size_t i = 0;
+   while (i < n)
+   {
+      uint64_t x = r.next();
+      for (int k = 0; k < 8 && i < n; ++k, x >>= 8) s[i++] = char(base + (x & 0xff) % span);
+   }
    return s;
 }
 
@@ -532,7 +546,7 @@ static size_t pick_cap(vh::Rng& r)
 {
    const unsigned p = unsigned(r.below(100));
    if (p < 45) return CAPS[r.below(10)];          // 1..31
-   if (p < 85) return CAPS[10 + r.below(5)];      // 254..257, 1000
+   if (p < 88) return CAPS[10 + r.below(5)];      // 254..257, 1000
    return CAPS[15 + r.below(4)];                  // 65534..65537
 }
 
@@ -569,15 +583,18 @@ static void run_hist(const vh::Args& a, bool oracle)
    ctx.oracle = oracle;
    const uint64_t nops = a.getu("ops", 200);
    std::vector<size_t> pool;
+   const std::string only = a.gets("only");
+   const size_t forceCap = size_t(a.getu("cap", 0));
    for (size_t i = 0; i < OPS.size(); ++i)
-      if (!oracle || !(OPS[i].flags & OF_C10ONLY)) pool.push_back(i);
+      if ((!oracle || !(OPS[i].flags & OF_C10ONLY)) && (only.empty() || OPS[i].name.find(only) != std::string::npos)) pool.push_back(i);
    std::map<size_t, Session*> sessions;
    const uint64_t end = a.start + a.count;
    for (uint64_t idx = a.start; idx < end; ++idx)
    {
       out.curIdx = idx;
       vh::Rng r(vh::mix(a.seed, vh::mix(vh::hash_str(a.mode), idx)));
-      const size_t L = pick_cap(r);
+      size_t L = pick_cap(r);
+      if (forceCap) L = forceCap;   // development aid
       Session*& sp = sessions[L];
       if (!sp) sp = make_session(L);
       Session& s = *sp;
@@ -624,12 +641,17 @@ static void run_hist(const vh::Args& a, bool oracle)
                if (r.chance(1, 4)) c.src += char('a' + r.below(26));
             }
          }
+         // the search family scans the needle once per character of the string (and ASan's strict string
+         // checks measure the whole needle on every strchr): keep needle x string bounded for huge capacities
+         if ((d.fam == F_SEARCH || d.fam == F_SEARCH_D || d.fam == F_SEARCH_CSTR_CNT || d.fam == F_CONTAINS) && L > 4096 && c.src.size() > 2048)
+            c.src.resize(2048);
          for (unsigned i = 0; i < d.nargs; ++i)
          {
             std::vector<size_t> g = oracle ? std::vector<size_t>() : grid10(d.role[i], len, L, c.src.size(), 2);
             if (!oracle)
             {
                c.a[i] = r.chance(2, 3) ? g[r.below(g.size())] : size_t(r.below(2 * L + 3));
+               if (d.role[i] == R_TARR && c.a[i] > 4200) c.a[i] = g[r.below(g.size())];
                continue;
             }
             // in-domain draw
@@ -641,7 +663,7 @@ static void run_hist(const vh::Args& a, bool oracle)
                switch (r.below(6)) { case 0: c.a[i] = NPOS; break; case 1: c.a[i] = 0; break; case 2: c.a[i] = size_t(r.below(2 * L + 3)); break; case 3: c.a[i] = P63 + r.below(5); break; default: c.a[i] = size_t(r.below(len + 2)); }
                break;
             case R_REP: c.a[i] = r.chance(1, 8) ? size_t(r.below(2 * L + 3)) : size_t(r.below(std::min<size_t>(L + 3, 12))); break;
-            case R_SPOS: case R_SIT: case R_SARR: c.a[i] = size_t(r.below(sl + 1)); if (r.chance(1, 6)) c.a[i] = sl; break;
+            case R_SPOS: case R_SIT: case R_SARR: case R_TARR: c.a[i] = size_t(r.below(sl + 1)); if (r.chance(1, 6)) c.a[i] = sl; break;
             case R_SCNT:
                switch (r.below(5)) { case 0: c.a[i] = NPOS; break; case 1: c.a[i] = 0; break; case 2: c.a[i] = P63 + r.below(5); break; default: c.a[i] = size_t(r.below(sl + 2)); }
                break;
@@ -696,6 +718,11 @@ int main(int argc, char** argv)
    if (a.getu("info", 0)) return 0;
    for (size_t i = 0; i < OPS.size(); ++i)
       if (ctx.opCount[i]) out.stat("op." + OPS[i].name, ctx.opCount[i]);
+   out.stat("calls", ctx.nCalls);
+   out.stat("judged_mutations", ctx.nJudgedMut);
+   out.stat("judged_observations", ctx.nJudgedObs);
+   out.stat("exceptions", ctx.nExceptions);
+   out.stat("truncations", ctx.nTrunc);
    out.finish(a);
    return 0;
 }
